@@ -41,6 +41,8 @@ def mk_int(t):
     t = z3.simplify(t)
     if z3.is_int_value(t):
         return t.as_long()
+    if z3.is_bv_value(t):
+        return t.as_long()
     if z3.is_rational_value(t):
         return float(t.numerator_as_long()) / float(t.denominator_as_long())
     return SInt(t)
@@ -86,6 +88,21 @@ def is_num(v):
 
 def is_symbolic(v):
     return isinstance(v, (SInt, SBool))
+
+
+def is_bv(v):
+    """machine-integer mode: an SInt whose term is a bit-vector"""
+    return isinstance(v, SInt) and isinstance(v.t, z3.BitVecRef)
+
+
+def bv_of(v, width):
+    if isinstance(v, SInt):
+        if isinstance(v.t, z3.BitVecRef):
+            return v.t
+        return z3.Int2BV(v.t, width)
+    if isinstance(v, SBool):
+        return z3.If(v.t, z3.BitVecVal(1, width), z3.BitVecVal(0, width))
+    return z3.BitVecVal(int(v), width)
 
 
 class SStr(object):
